@@ -328,6 +328,12 @@ func c12Round3(c *Ctx) {
 		c.Check(uniq == 1 && direct == 0, "R12l", "atomicfile.New temporary file", p.Pos(fn.Pos()), "one TempFile/CreateTemp", fmt.Sprintf("the temporary file is opened under a predictable name (%d unique-name creations, %d direct opens): when the input, a sibling or a concurrent run already has that name, the rewrite truncates it and then copies from a file it has just emptied, so the result is not the patched original", uniq, direct))
 	}
 
+	if nw := p.Func("lib/atomicfile.New"); nw != nil {
+		if tmp := p.callsIn(nw, "io/ioutil.TempFile", "os.CreateTemp"); len(tmp) == 1 {
+			c.Check(atomicTempInDestDir(p, nw, tmp[0]), "R12l", "atomicfile.New temporary file is created next to the destination", p.Pos(tmp[0].Pos()), "filepath.Dir(dest)",
+				"the temporary file of the rewrite strategy is not created in filepath.Dir(dest) (shared with C13 R13a): for a bare file name an empty directory means $TMPDIR, the rename crosses filesystems and fails, while the in-place strategy succeeds on the same file - the two strategies no longer give the same result")
+		}
+	}
 	c.Rule("R12p", "ApplyBinPatch fails only because reading, loading or applying the patch failed", 2)
 	for _, f := range applyBinPatchRefusesNothingItself(p) {
 		c.Check(f.OK, "R12p", f.Key, f.Pos, "", f.Detail)
@@ -552,6 +558,11 @@ func c18Round3(c *Ctx) {
 }
 
 func c19Round3(c *Ctx) {
+	c.Rule("R19l", "the hexadecimal identity strings of lib/appmanifest (publicKeyToken, issuerKeyHash) have a fixed width: none is made by a variable-width integer formatter", 0)
+	for _, f := range hexIdentitiesFixedWidth(c.P) {
+		c.Check(f.OK, "R19l", f.Key, f.Pos, "", f.Detail)
+	}
+	c.runControl("R19l variable-width token control (ctl/hexid.Token)", "hexid.Token", hexIdentitiesFixedWidth)
 	c.Rule("R19k", "the strong-name blob states the key size as eight times the modulus bytes it carries", 1)
 	for _, f := range snkBitLengthFromModulusBytes(c.P) {
 		c.Check(f.OK, "R19k", f.Key, f.Pos, "", f.Detail)
